@@ -284,6 +284,12 @@ func c10Case(c *core.Ctx) *core.Result {
 		d.AddParagraph("pictures")
 	}
 	var ledger []*picEntry
+	type sharedCfg struct {
+		cfg  *document.ImageConfig
+		w, h float64
+		keep bool
+	}
+	var sharedCfgs []sharedCfg
 	// sibling renders of one template that stay alive: each has its own ledger and is checked at the end
 	type sibling struct {
 		d      *document.Document
@@ -315,11 +321,22 @@ func c10Case(c *core.Ctx) *core.Result {
 			im := newImage()
 			w, h, keep := c10Size(r)
 			var cfg *document.ImageConfig
-			if w > 0 || h > 0 || r.Bool() {
+			if len(sharedCfgs) > 0 && r.Chance(1, 4) {
+				// the caller keeps one configuration object and passes it for several pictures: each picture is sized from the
+				// request as the caller wrote it down, whatever the pictures before it looked like
+				sc := sharedCfgs[r.Intn(len(sharedCfgs))]
+				cfg, w, h, keep = sc.cfg, sc.w, sc.h, sc.keep
+				res.Count("shared_config_reuses", 1)
+			} else if w > 0 || h > 0 || r.Bool() {
 				cfg = &document.ImageConfig{Position: []document.ImagePosition{document.ImagePositionInline, document.ImagePositionFloatLeft, document.ImagePositionFloatRight, ""}[r.Intn(4)],
 					WrapText: []document.ImageWrapText{document.ImageWrapNone, document.ImageWrapSquare, document.ImageWrapTight, document.ImageWrapTopAndBottom, ""}[r.Intn(5)], AltText: gen.SafeString(r)}
 				if w > 0 || h > 0 || r.Bool() {
 					cfg.Size = &document.ImageSize{Width: w, Height: h, KeepAspectRatio: keep}
+				} else {
+					w, h, keep = 0, 0, false
+				}
+				if len(sharedCfgs) < 4 {
+					sharedCfgs = append(sharedCfgs, sharedCfg{cfg, w, h, keep})
 				}
 			}
 			e := &picEntry{serial: serial, data: im.Data, pxW: im.W, pxH: im.H, w: w, h: h, keep: keep, where: "body"}
